@@ -159,9 +159,10 @@ func (conn *Tunnel) requestConn() (err error) {
 				switch res.Status {
 				// Conection has been established.
 				case knxnet.NoError:
-					conn.channel = res.Channel
-
+					// The channel and the sequence number belong together: a sender that holds or is
+					// about to take the lock must never combine the new channel with the old numbering.
 					conn.seqMu.Lock()
+					conn.channel = res.Channel
 					conn.seqNumber = 0
 					conn.seqMu.Unlock()
 
